@@ -25,10 +25,10 @@ LOGIC_TEXT = {
 
 
 class Rule:
-    __slots__ = ("pattern", "children", "glob", "ordered", "rewrite", "logic", "ignore", "uid")
+    __slots__ = ("pattern", "children", "glob", "ordered", "rewrite", "logic", "ignore", "uid", "nkeys")
     _n = 0
 
-    def __init__(self, pattern, children=(), glob=False, ordered=False, rewrite=False, logic=None, ignore=False):
+    def __init__(self, pattern, children=(), glob=False, ordered=False, rewrite=False, logic=None, ignore=False, nkeys=None):
         self.pattern = pattern
         self.children = list(children)
         self.glob = glob
@@ -36,6 +36,7 @@ class Rule:
         self.rewrite = rewrite
         self.logic = logic
         self.ignore = ignore
+        self.nkeys = nkeys          # force this many keys in the universe (e.g. 3 rows of an %ordered rule)
         Rule._n += 1
         self.uid = Rule._n
 
@@ -55,14 +56,14 @@ class Rule:
                                 (self.logic, self.logic), ("ignore", self.ignore)) if on]
 
     def to_json(self):
-        return {"p": self.pattern, "f": self.flags(), "c": [c.to_json() for c in self.children]}
+        return {"p": self.pattern, "f": self.flags(), "c": [c.to_json() for c in self.children], "k": self.nkeys}
 
     @staticmethod
     def from_json(d):
         f = set(d.get("f", []))
         logic = next((x for x in ("undo_redo", "permanent", "ignore_changes") if x in f), None)
         return Rule(d["p"], [Rule.from_json(c) for c in d.get("c", [])], glob="global" in f, ordered="ordered" in f,
-                    rewrite="rewrite" in f, logic=logic, ignore="ignore" in f)
+                    rewrite="rewrite" in f, logic=logic, ignore="ignore" in f, nkeys=d.get("k"))
 
 
 def text(rules, indent=0):
@@ -126,8 +127,8 @@ def govern(level: Level, row: str):
 # ---------------------------------------------------------------------------------------------------
 # row universes
 
-STAR_VALUES = ["1", "2"]
-TILDE_VALUES = ["1", "2 3"]
+STAR_VALUES = ["1", "2", "3"]
+TILDE_VALUES = ["1", "2 3", "4"]
 
 
 def rule_keys(rule: Rule, nkeys=2):
@@ -136,7 +137,7 @@ def rule_keys(rule: Rule, nkeys=2):
     if not ph:
         return [()]
     keys = []
-    for i in range(nkeys):
+    for i in range(rule.nkeys or nkeys):
         k = []
         for t in ph:
             c = rulelang.tok_class(t)
